@@ -9,7 +9,7 @@ import itertools
 import random as _pyrandom
 
 from pvc.contract import Contract
-from pvc.sym import And, Or, Not, Implies, eq, lt, le, is_sym
+from pvc.sym import And, Or, Not, Implies, eq, lt, le, is_sym, smin, smax
 from . import fx
 from .net import Net, build_dcop, global_cost, local_cost, HandlerRaised, get_spec, make_net
 
@@ -171,6 +171,39 @@ def h_mgm_cycles(env):
     if any(len(a) != len(names) for a in A):
         env.prove("%s.cycle-assignments-complete" % algo, False, detail=lambda: A)
         return
+    if algo == "mgm":
+        # ---- lemma both properties rest on (MGM's definition of the gain): the gain a variable announces in decision
+        # phase j is its best unilateral improvement against the values its neighbours actually hold in that phase.
+        # Ground truth from the channels: the j-th value message of m -> n is m's value in phase j.
+        vals, gains = {}, {}
+        for ev in net.log:
+            if ev[0] != "post":
+                continue
+            _, src, dst, msg = ev
+            if msg.type == "mgm_value":
+                vals.setdefault((src, dst), []).append(msg.value)
+            elif msg.type == "mgm_gain":
+                gains.setdefault((src, dst), []).append(msg.value)
+        for n in active:
+            nbs = list(net.comps[n].neighbors)
+            mine = gains.get((n, nbs[0]), [])
+            for j, g in enumerate(mine):
+                if any(len(vals.get((m, n), [])) <= j for m in nbs) or len(vals.get((n, nbs[0]), [])) <= j:
+                    continue
+                view = {m: vals[(m, n)][j] for m in nbs}
+                own = vals[(n, nbs[0])][j]
+                a = dict(view)
+                a[n] = own
+                for o in names:     # variables that are not neighbours do not enter n's local cost
+                    a.setdefault(o, net.comps[o].current_value)
+                cur = local_cost(n, own, a, tabs, varcost)
+                alts = [local_cost(n, d, a, tabs, varcost) for d in variables[n].domain]
+                best = smin(alts) if mode == "min" else smax(alts)
+                for tag in ("C03", "C04"):
+                    env.prove("mgm.%s.announced-gain-is-the-best-unilateral-improvement-against-the-neighbours-values-of-that-cycle" % tag,
+                              Or(eq(g, cur - best), eq(g, best - cur)),     # either sign convention
+                              detail=lambda: dict(variable=n, phase=j + 1, own_value=own, neighbours=view, announced=g,
+                                                                      current_local_cost=cur, best_local_cost=best, mode=mode))
     F = [global_cost(a, tabs, varcost, variables) for a in A]
     for c in range(len(A) - 1):
         # ---- C03
@@ -257,6 +290,11 @@ def _shapes_mgm(tier, prop=None):
         dict(spec="pair2", stop_cycle=2, algo_params=dict(break_mode="random")),
         dict(spec="chain3", stop_cycle=2, modes=["min"], algo_params=dict(break_mode="random")),
     ]
+    # equal domains: the values of two different neighbours can be confused (value-keyed caches), needs the neighbours'
+    # messages to arrive in another order than in an earlier cycle
+    s += [dict(spec="chain3_free", stop_cycle=3, modes=["min"], policy="random", sched_seed=i, search_paths=6000) for i in (1, 2)]
+    s += [dict(spec="rand5", same_dom=True, max_dom=2, unary=False, stop_cycle=5, sample_only=True, sample_factor=6, sample_part=4 + i,
+               policy="random", sched_seed=i) for i in range(3)]
     # 4-6 variables, more cycles: decided by the sampled native pass only
     s += [dict(spec="rand4", stop_cycle=4, sample_only=True, sample_factor=4, sample_part=0, policy="random", sched_seed=1),
           dict(spec="rand5", stop_cycle=4, sample_only=True, sample_factor=4, sample_part=1, nary=True),
